@@ -289,7 +289,7 @@ func (ex *Exec) verifyFunc(fn *ssa.Function, caseParam string, caseLit Expr) *Fu
 		// ghost frame: ghosts not listed in modifies are unchanged
 		mod := ex.contractEffects(c).Ghosts
 		for _, gname := range ex.frameGhosts {
-			if mod[gname] {
+			if mod[gname] || !claimsGhostFrame(c, ex.prop) {
 				continue
 			}
 			cur, old := ex.ghostVal(o.St, gname), ex.ghostVal(entry, gname)
@@ -346,4 +346,18 @@ func (ex *Exec) lemmaObligations() {
 		ob := ex.addObl(st, "lemma", fmt.Sprintf("%s/lemma/%s", ex.prop, l.Name), g, 0, l.Text)
 		ob.Func = "lemma " + l.Name
 	}
+}
+
+// claimsGhostFrame: the contract says which ghosts the function modifies (a modifies
+// clause, possibly empty through flag "noghost"); otherwise callers havoc the owned ghosts.
+func claimsGhostFrame(c *Contract, prop string) bool {
+	if c.Flags["noghost"] || c.Flags["pure"] {
+		return true
+	}
+	for _, cl := range c.Clauses {
+		if cl.Kind == "modifies" && tagActive(cl.Tags, prop) {
+			return true
+		}
+	}
+	return false
 }
